@@ -72,7 +72,8 @@ func (mbp *multipartBodyProcessor) ProcessRequest(reader io.Reader, v plugintype
 				sz, err := io.Copy(temp, p)
 				// A failing close means the upload may not have reached the disk: report it like a
 				// failed write instead of dropping it.
-				if closeErr := temp.Close(); err == nil {
+				// A tolerated truncation (io.ErrUnexpectedEOF) must not hide it either.
+				if closeErr := temp.Close(); closeErr != nil && (err == nil || errors.Is(err, io.ErrUnexpectedEOF)) {
 					err = closeErr
 				}
 				if err != nil {
